@@ -26,7 +26,7 @@ import jax
 import fedjax
 from fedjax.core import client_samplers
 
-from vf.core import Check, require
+from vf.core import Check, Violation, require
 
 PROPERTY_ID = 'C13'
 NEEDS_TF = False
@@ -212,6 +212,59 @@ class KeyLedger:
 
 # ------------------------------------------------------- check 1: histories
 
+class FlakyFederatedData(fedjax.FederatedData):
+  """A dataset whose bulk read can fail once (a transient I/O error of the
+  storage underneath) and then works again; everything is delegated."""
+
+  def __init__(self, base):
+    self._base = base
+    self.fail_next_bulk_read = False
+
+  def slice(self, start=None, stop=None):
+    return FlakyFederatedData(self._base.slice(start, stop))
+
+  def num_clients(self):
+    return self._base.num_clients()
+
+  def client_ids(self):
+    return self._base.client_ids()
+
+  def client_sizes(self):
+    return self._base.client_sizes()
+
+  def client_size(self, client_id):
+    return self._base.client_size(client_id)
+
+  def clients(self):
+    return self._base.clients()
+
+  def shuffled_clients(self, buffer_size, seed=None):
+    return self._base.shuffled_clients(buffer_size, seed)
+
+  def get_clients(self, client_ids):
+    fail = self.fail_next_bulk_read
+    self.fail_next_bulk_read = False
+    for j, item in enumerate(self._base.get_clients(client_ids)):
+      if fail and j == 0:
+        raise TransientReadError('injected: the storage failed in the middle of a bulk read')
+      yield item
+    if fail:
+      raise TransientReadError('injected: the storage failed at the end of a bulk read')
+
+  def get_client(self, client_id):
+    return self._base.get_client(client_id)
+
+  def preprocess_client(self, fn):
+    return FlakyFederatedData(self._base.preprocess_client(fn))
+
+  def preprocess_batch(self, fn):
+    return FlakyFederatedData(self._base.preprocess_batch(fn))
+
+
+class TransientReadError(OSError):
+  pass
+
+
 def run_history(case):
   cohort, seed, start = case['cohort'], case['seed'], case['start']
   with Backend(case) as be:
@@ -235,12 +288,23 @@ def run_history(case):
         memo[r] = fa
       return memo[r]
 
+    flaky = FlakyFederatedData(be.open())
     sampler = client_samplers.UniformGetClientSampler(
-        be.open(), cohort, seed, start_round_num=start)
+        flaky, cohort, seed, start_round_num=start)
     cur = start
     trail = []
     for op in case['ops']:
-      if op[0] == 'set_round_num':
+      if op[0] == 'failed_sample':
+        # the storage fails while the cohort of this round is being loaded; the
+        # caller retries: the retry (the next 'sample') is still THIS round
+        flaky.fail_next_bulk_read = True
+        try:
+          sampler.sample()
+        except TransientReadError:
+          trail.append(f'failed_sample@{cur}')
+        else:
+          raise Violation('history:injected_read_error_swallowed', f'round {cur}')
+      elif op[0] == 'set_round_num':
         sampler.set_round_num(op[1])
         cur = op[1]
         trail.append(f'set({cur})')
@@ -267,6 +331,8 @@ def sampled_rounds(case):
   for op in case['ops']:
     if op[0] == 'set_round_num':
       cur = op[1]
+    elif op[0] == 'failed_sample':
+      continue
     else:
       out.append(cur)
       cur += 1
@@ -478,6 +544,8 @@ def history_strategy(draw, tier):
            'same', 'any', 'double']
   for _ in range(groups):
     kind = draw(st.sampled_from(kinds))
+    if kind == 'sample' and draw(st.integers(0, 9)) == 0:
+      ops.append(['failed_sample'])
     if kind == 'sample':
       pass
     else:
